@@ -123,7 +123,7 @@ def run_kani(ws, crate, harnesses, jobs=16, timeout_s=900, extra_flags=(), featu
             covers = [c for c in checks if c.get("category") == "cover" or c.get("property_class") == "cover"]
             unsat_covers = [c for c in covers if c.get("status") not in ("Satisfied", "SATISFIED", "Success")]
             results[hid] = {
-                "status": r.get("status"),
+                "status": r.get("status"), "reason": ("memory cap exceeded (solver killed)" if (killed and not checks) else None),
                 "duration_s": r.get("duration_ms", 0) / 1000.0,
                 "n_checks": len(checks),
                 "failed": [{"description": c.get("description"), "category": c.get("category"),
